@@ -48,6 +48,13 @@ func (o *Obs) faultTag() string {
 // Judge evaluates C01, C07, C10 and C11 on one observed run.
 func Judge(o *Obs) []Failure {
 	var out []Failure
+	if o.Panic != "" {
+		d := fmt.Sprintf("program %s setup=%v target=%v fault=%s panic=%s", o.Prog.Header(), o.Prog.Setup, o.Prog.Target, o.faultTag(), o.Panic)
+		for _, p := range []string{"C01", "C07", "C10"} {
+			out = append(out, Failure{p, p + "/panic/" + o.faultTag(), "the transaction code panicked (in the faulted transaction or in the one that retried its changes)", d})
+		}
+		return out
+	}
 	if o.SetupErr != nil || o.Res == nil || o.Res.OpenErr != nil {
 		return nil
 	}
@@ -84,18 +91,51 @@ func Judge(o *Obs) []Failure {
 	st := o.StepAtFault()
 	cleanupFault := o.FaultName != "" && o.Res.CommitErr == nil
 	if !cleanupFault && o.Disk != nil && o.Reach != nil && len(o.Reach.Problems) == 0 {
-		nReg, nBlob := 0, 0
+		// orphans that were not there before the target transaction (what was orphaned earlier is not this history's doing)
+		preOrphan := map[string]bool{}
+		if o.Pre != nil && o.PreReach != nil {
+			for _, hs := range o.Pre.Handles {
+				for _, h := range hs {
+					if !o.PreReach.Lids[h.LogicalID] {
+						preOrphan["r"+h.LogicalID.String()] = true
+					}
+				}
+			}
+			for _, ids := range o.Pre.BlobFiles {
+				for _, id := range ids {
+					if !o.PreReach.BlobIDs[id] {
+						preOrphan["b"+id.String()] = true
+					}
+				}
+			}
+		}
+		isValue := map[string]bool{}
+		for _, res := range []*Result{o.Res, o.Retry} {
+			if res == nil {
+				continue
+			}
+			for _, ids := range res.Values {
+				for _, id := range ids {
+					isValue[id.String()] = true
+				}
+			}
+		}
+		nReg, nBlob, nVal := 0, 0, 0
 		for _, hs := range o.Disk.Handles {
 			for _, h := range hs {
-				if !o.Reach.Lids[h.LogicalID] {
+				if !o.Reach.Lids[h.LogicalID] && !preOrphan["r"+h.LogicalID.String()] {
 					nReg++
 				}
 			}
 		}
 		for _, ids := range o.Disk.BlobFiles {
 			for _, id := range ids {
-				if !o.Reach.BlobIDs[id] {
-					nBlob++
+				if !o.Reach.BlobIDs[id] && !preOrphan["b"+id.String()] {
+					if isValue[id.String()] {
+						nVal++
+					} else {
+						nBlob++
+					}
 				}
 			}
 		}
@@ -114,7 +154,18 @@ func Judge(o *Obs) []Failure {
 		}
 		if len(kinds) > 0 {
 			out = append(out, Failure{"C11", "C11/orphan-" + strings.Join(kinds, "+") + "/" + tag, "finished transactions left orphaned data",
-				detail + fmt.Sprintf(" orphans: reg=%d blob=%d tlog=%d plog=%d", nReg, nBlob, len(o.Disk.TLogs), len(o.Disk.PLogs))})
+				detail + fmt.Sprintf(" orphans: reg=%d blob=%d value-blob=%d tlog=%d plog=%d", nReg, nBlob, nVal, len(o.Disk.TLogs), len(o.Disk.PLogs))})
+		}
+		if nVal > 0 {
+			// value blobs of a transaction whose final attempt committed are unreferenced because the node keeps the
+			// value inline (a known finding); value blobs left by a transaction that ended in failure are a leak
+			committed := o.Res.CommitErr == nil || (o.RetryDone && o.RetryErr == nil)
+			failedLeak := o.Res.CommitErr != nil && (!o.RetryDone || o.RetryErr != nil)
+			if failedLeak {
+				out = append(out, Failure{"C11", "C11/value-blob-left-by-failed-commit/" + tag, "a failed commit left value blobs it had written", detail + fmt.Sprintf(" value blobs left=%d", nVal)})
+			} else if committed {
+				out = append(out, Failure{"C11", "C11/value-blob-unreferenced-after-commit", "separate-segment value blobs are written but the node keeps the value inline: the blobs are referenced by nothing", detail + fmt.Sprintf(" value blobs=%d", nVal)})
+			}
 		}
 	}
 	_ = st
